@@ -563,6 +563,63 @@ func (g *gen) newJwk() *jwkSpec {
 	return j
 }
 
+// otherKey picks a pool key different from k, of the same key type or of another one
+func (g *gen) otherKey(k *keyEnt, sameType bool) *keyEnt {
+	var c []*keyEnt
+	for _, e := range g.pool {
+		if e != k && (e.kty == k.kty) == sameType {
+			c = append(c, e)
+		}
+	}
+	if len(c) == 0 {
+		return nil
+	}
+	return drv.Pick(g.r, c)
+}
+
+// someOther is otherKey that falls back to the other choice of type when there is none
+func (g *gen) someOther(k *keyEnt, sameType bool) *keyEnt {
+	if e := g.otherKey(k, sameType); e != nil {
+		return e
+	}
+	return g.otherKey(k, !sameType)
+}
+
+// twins (1 set in 3) gives one key of the set a neighbour that shares or lacks its kid, placed
+// directly before or after it: the same kid under another key type (RFC 7517 4.5, e.g. an
+// RSA->EC migration), the same kid and type with other key material, the same kid with
+// use=enc, or a kid-less key of the same / another type.
+func (g *gen) twins(set []*jwkSpec) []*jwkSpec {
+	if len(set) == 0 || !g.r.Chance(1, 3) {
+		return set
+	}
+	i := g.r.IntN(len(set))
+	j := set[i]
+	tw := &jwkSpec{kid: j.kid, use: j.use}
+	switch g.r.IntN(6) {
+	case 0, 1:
+		tw.key = g.otherKey(j.key, false)
+	case 2:
+		tw.key = g.otherKey(j.key, true)
+	case 3:
+		tw.key, tw.use = g.otherKey(j.key, g.r.Bool()), "enc"
+	case 4:
+		tw.key, tw.kid = g.otherKey(j.key, true), ""
+	default:
+		tw.key, tw.kid = g.otherKey(j.key, false), ""
+	}
+	if tw.key == nil {
+		return set
+	}
+	out := append([]*jwkSpec{}, set[:i]...)
+	if g.r.Bool() {
+		out = append(out, tw, j)
+	} else {
+		out = append(out, j, tw)
+	}
+	return append(out, set[i+1:]...)
+}
+
 // timeline of key sets the endpoint publishes: set i+1 is a rotation of set i
 func (g *gen) timeline(n int) [][]*jwkSpec {
 	var tl [][]*jwkSpec
@@ -573,6 +630,7 @@ func (g *gen) timeline(n int) [][]*jwkSpec {
 	if g.r.Chance(1, 12) && len(cur) >= 2 { // duplicate kid
 		cur[1].kid = cur[0].kid
 	}
+	cur = g.twins(cur)
 	tl = append(tl, cur)
 	for i := 1; i < n; i++ {
 		var nx []*jwkSpec
@@ -586,7 +644,7 @@ func (g *gen) timeline(n int) [][]*jwkSpec {
 			nx = append(nx, g.newJwk())
 		}
 		g.r.Shuffle(len(nx), func(a, b int) { nx[a], nx[b] = nx[b], nx[a] })
-		cur = nx
+		cur = g.twins(nx)
 		tl = append(tl, cur)
 	}
 	return tl
@@ -799,6 +857,28 @@ func (g *gen) directed(which int) *script {
 		s.tags = []string{"shape=joiner_cancel"}
 		add(step{op: "arrive", tok: valid(0)}, step{op: "arrive", tok: valid(0)}, step{op: "arrive", tok: valid(0)},
 			step{op: "cancel", tid: 1 + g.r.IntN(2)}, step{op: "release", resp: g.goodResp(tl[0])})
+	case 9: // one kid, several keys: key types side by side under the same kid, kid-less neighbours
+		s.tags = []string{"shape=shared_kid"}
+		a := drv.Pick(g.r, g.pool)
+		b := g.otherKey(a, false)
+		kid := g.freshKid()
+		set := []*jwkSpec{{kid: kid, use: "sig", key: a}, {kid: kid, use: "sig", key: b}}
+		if g.r.Bool() {
+			set = append([]*jwkSpec{{kid: "", use: "sig", key: g.someOther(a, g.r.Bool())}}, set...)
+		}
+		if g.r.Bool() {
+			set = append(set, &jwkSpec{kid: kid, use: "enc", key: g.someOther(a, true)})
+		}
+		if g.r.Bool() {
+			set[len(set)-1], set[len(set)-2] = set[len(set)-2], set[len(set)-1]
+		}
+		ta, tb := g.token("valid", kid, a), g.token("valid", kid, b)
+		if g.r.Bool() {
+			ta, tb = tb, ta
+		}
+		add(step{op: "arrive", tok: ta}, step{op: "arrive", tok: tb}, step{op: "release", resp: g.goodResp(set)},
+			step{op: "arrive", tok: tb}, step{op: "arrive", tok: ta},
+			step{op: "arrive", tok: g.token("wrongkey", kid, g.someOther(a, true))}, step{op: "release", resp: g.goodResp(set)})
 	case 8: // recovery: a download fails, the endpoint recovers and has rotated meanwhile
 		s.tags = []string{"shape=recovery", "rotate=1"}
 		hardFail := func() *respSpec {
@@ -1094,7 +1174,7 @@ func main() {
 	for i := 0; i < n; i++ {
 		var s *script
 		if i%4 == 0 {
-			s = g.directed((i / 4) % 9)
+			s = g.directed((i / 4) % 10)
 		} else {
 			s = g.randomScript()
 		}
@@ -1189,8 +1269,8 @@ func main() {
 	must(w.Close(emit.Meta{
 		Property: "C13", Tier: cfg.Tier, Seed: cfg.Seed,
 		Rule: "each case = one macro-schedule (arrive/cancel/expire/release; expire = a real context.WithDeadline passing) of 2-6 concurrent VerifySignature calls on a fresh rp.NewRemoteKeySet " +
-			"behind a gated RoundTripper; 1 in 4 directed shapes (owner cancel, pre-cancelled owner, joiner cancel, owner deadline expires, joiner deadline expires, rotation, failure keeps cache, unknown kid, fail-recover-rotate), " +
-			"the rest random phases over a timeline of rotating key sets with valid/future/older/unknown-kid/kid-less/wrong-key tokens and good/huge/5xx/non-200-with-JWKS/malformed (trailing bytes, truncated, wrong top-level type, keys not an array, not a JWKS, not JSON)/junk-only/empty/transport-error answers. " +
+			"behind a gated RoundTripper; 1 in 4 directed shapes (owner cancel, pre-cancelled owner, joiner cancel, owner deadline expires, joiner deadline expires, rotation, failure keeps cache, unknown kid, fail-recover-rotate, one kid shared by keys of several types), " +
+			"the rest random phases over a timeline of rotating key sets (1 in 3 with a same-kid / kid-less neighbour of another or the same key type, before or after) with valid/future/older/unknown-kid/kid-less/wrong-key tokens and good/huge/5xx/non-200-with-JWKS/malformed (trailing bytes, truncated, wrong top-level type, keys not an array, not a JWKS, not JSON)/junk-only/empty/transport-error answers. " +
 			"Observed = snapshot after every step at quiescence. non-trivial = at least one caller arrived (path != 0); distinct = distinct (input, observed) terms.",
 		Notes: notes,
 		Extra: map[string]any{"reruns_after_disagreeing_observations": reruns, "unstable_scripts": unstable, "quiescence_timeouts": timeouts,
